@@ -343,6 +343,59 @@ func runStd(c *fw.Ctx, count bool) *divergence {
 	return first
 }
 
+// runStdPartial: a state opened with SkipOpenLibs and a hand-picked set of libraries that does not include the
+// package library. require is part of the base library; what the host registered (the opened libraries, a module
+// of its own) is cached and every require of such a name returns the identical cached value.
+func runStdPartial(c *fw.Ctx, count bool) *divergence {
+	L := lua.NewState(lua.Options{SkipOpenLibs: true})
+	defer L.Close()
+	var first *divergence
+	mk := func(i int, n, msg string) {
+		if first == nil {
+			first = &divergence{Step: i, Op: Op{K: "req", N: n}, Msg: msg, Tag: "partial:" + n}
+		}
+	}
+	o := gl.Protect(func() error {
+		for _, lib := range []struct {
+			n string
+			f lua.LGFunction
+		}{{lua.BaseLibName, lua.OpenBase}, {lua.StringLibName, lua.OpenString}, {lua.TabLibName, lua.OpenTable}} {
+			L.Push(L.NewFunction(lib.f))
+			L.Push(lua.LString(lib.n))
+			L.Call(1, 0)
+		}
+		return nil
+	})
+	if o.GoPanic != nil || o.Err != nil {
+		mk(0, "open", fmt.Sprintf("opening base, string and table on a SkipOpenLibs state failed: %v %v", o.GoPanic, o.Err))
+		return first
+	}
+	host := L.RegisterModule("hostmod", map[string]lua.LGFunction{"f": func(L *lua.LState) int { return 0 }})
+	req := L.GetGlobal("require")
+	for i, n := range []string{"string", "table", "_G", "hostmod", "hostmod", "string"} {
+		want := L.GetGlobal(n)
+		if n == "hostmod" {
+			want = host
+		}
+		vals, o := gl.Call(L, req, lua.LString(n))
+		if count {
+			c.Count("std_require_checks_without_package_library", 1)
+		}
+		switch {
+		case o.GoPanic != nil:
+			mk(i, n, "Go panic escaped require: "+fw.Short(o.PanicStr, 200))
+		case o.Err != nil:
+			mk(i, n, fmt.Sprintf("state without the package library: %s was registered by the host but require(%q) fails: %s", n, n, fw.Short(o.Err.Error(), 300)))
+		case len(vals) != 1 || vals[0] != want:
+			mk(i, n, fmt.Sprintf("state without the package library: require(%q) is not the registered table", n))
+		}
+	}
+	if count {
+		c.End(first == nil, "stdlib-partial")
+	}
+	return first
+}
+
 // ---- enumeration ----
 
 type family struct {
@@ -580,6 +633,13 @@ func run(c *fw.Ctx) {
 				"standard library not reachable through require: "+d.String(), cs)
 		}
 	}
+	if c.Shard == 1%c.NShards {
+		cs := &Case{Fam: "stdlib-partial"}
+		c.Begin(cs)
+		if d := runStdPartial(c, true); d != nil {
+			c.Violation("host-registered module not reachable through require: "+d.String(), cs)
+		}
+	}
 	// 2. bounded-exhaustive families
 	idx := 0
 	sampled := map[string]int{}
@@ -683,6 +743,12 @@ func replay(c *fw.Ctx, raw json.RawMessage) {
 	if cs.Fam == "stdlib" {
 		if d := runStd(c, false); d != nil {
 			c.ViolationOrKnown(fPackage, d.Tag == "std:package", "standard library not reachable through require: "+d.String(), &cs)
+		}
+		return
+	}
+	if cs.Fam == "stdlib-partial" {
+		if d := runStdPartial(c, false); d != nil {
+			c.Violation("host-registered module not reachable through require: "+d.String(), &cs)
 		}
 		return
 	}
